@@ -6,6 +6,9 @@ Row00 == [w |-> 0, u |-> 0]
 Row01 == [w |-> 0, u |-> 1]
 InitRowsA == {Absent, Row00}
 InitRowsB == {Absent, Row00, Row01}
+\* rows that differ in the written part (w2 is NULL for w = 0 in the nullable schema): the rows of one image differ
+Row10 == [w |-> 1, u |-> 0]
+InitRowsC == {Absent, Row00, Row10}
 EnvBool(s) == s = "true"
 EnvOnlyCare == EnvBool(IOEnv.ONLYCARE)
 EnvValidate == EnvBool(IOEnv.VALIDATE)
